@@ -10,3 +10,8 @@
 (define-fun specSigAlg ((n String)) Int
   (ite (= n "RSAwithSHA1") 0 (ite (= n "RSAwithSHA256") 1 (ite (= n "RSAwithSHA384") 2 (ite (= n "RSAwithSHA512") 3
   (ite (= n "ECDSAwithSHA1") 4 (ite (= n "ECDSAwithSHA256") 5 (ite (= n "ECDSAwithSHA384") 6 (ite (= n "ECDSAwithSHA512") 7 (- 1))))))))))
+; requires strings.smt2
+(assert (and (hasPrefix "RSA-1024" "RSA") (hasPrefix "RSA-2048" "RSA") (hasPrefix "RSA-4096" "RSA") (hasPrefix "RSA-8192" "RSA")))
+(assert (not (or (hasPrefix "" "RSA") (hasPrefix "P-224" "RSA") (hasPrefix "P-256" "RSA") (hasPrefix "P-384" "RSA") (hasPrefix "P-521" "RSA")
+  (hasPrefix "brainpoolP256r1" "RSA") (hasPrefix "brainpoolP384r1" "RSA") (hasPrefix "brainpoolP512r1" "RSA")
+  (hasPrefix "brainpoolP256t1" "RSA") (hasPrefix "brainpoolP384t1" "RSA") (hasPrefix "brainpoolP512t1" "RSA"))))
